@@ -919,6 +919,10 @@ func runTimeCase(c *timeCase, now time.Time) (out J) {
 			out["skip"] = err.Error()
 			return out
 		}
+		if len(c.Src)%2 == 0 {
+			// context noise: the zone of the case overrides a decoy zone carried by the parent
+			ctx = types.ContextWithTZ(ctx, time.FixedZone("decoy", 5*3600+45*60))
+		}
 		ctx = types.ContextWithTZ(ctx, loc)
 		today = todayIn(now, loc)
 	}
@@ -933,6 +937,20 @@ func runTimeCase(c *timeCase, now time.Time) (out J) {
 		out["ok"] = ok
 		if ok {
 			valFields(out, v)
+			// the returned value belongs to the caller: writing through it must not change what a
+			// second parse of the same text returns
+			first := fmt.Sprint(v.String(), " ", fmt.Sprintf("%T", v))
+			if u, isU := v.(json.Unmarshaler); isU {
+				for _, other := range []string{`"1999-12-31"`, `"01:02:03"`, `"01:02:03+01:00"`, `"1999-12-31T01:02:03"`, `"1999-12-31T01:02:03+01:00"`} {
+					if u.UnmarshalJSON([]byte(other)) == nil {
+						break
+					}
+				}
+			}
+			if w, ok2 := types.ParseTime(ctx, c.Src, c.precision()); !ok2 || fmt.Sprint(w.String(), " ", fmt.Sprintf("%T", w)) != first {
+				out["ok"] = false
+				out["shared"] = "a second ParseTime of the same text returned a value changed through the first result"
+			}
 		}
 	case "time.cast":
 		if _, ok := types.ParseTime(ctx, c.Src, c.precision()); !ok {
